@@ -23,7 +23,7 @@ SRC = os.path.join(BUILD, "src")
 COMMON = "-O1 -g -fno-omit-frame-pointer -Wno-error -Wno-documentation -Wno-unused-command-line-argument"
 FLAVOURS = {
     "rel": COMMON,
-    "asan": COMMON + " -fsanitize=address,undefined,fuzzer-no-link -fno-sanitize-recover=undefined -fno-sanitize=vptr,function",
+    "asan": COMMON + " -fsanitize=address,undefined,fuzzer-no-link -fno-sanitize-recover=undefined -fno-sanitize=vptr,function,nonnull-attribute",
     "tsan": COMMON + " -fsanitize=thread",
 }
 LDFLAGS = {
@@ -49,6 +49,11 @@ def mirror():
 
 def build(flavour, targets):
     bdir = os.path.join(BUILD, flavour)
+    stamp = os.path.join(bdir, ".verif-flags")
+    want = FLAVOURS[flavour] + "|" + LDFLAGS[flavour]
+    if os.path.exists(bdir) and (not os.path.exists(stamp) or open(stamp).read() != want):
+        import shutil
+        shutil.rmtree(bdir)
     if not os.path.exists(os.path.join(bdir, "build.ninja")):
         os.makedirs(bdir, exist_ok=True)
         run(["cmake", "-G", "Ninja", "-S", os.path.join(VERIF, "harness"), "-B", bdir,
@@ -57,6 +62,8 @@ def build(flavour, targets):
              "-DCMAKE_CXX_FLAGS=" + FLAVOURS[flavour], "-DCMAKE_C_FLAGS=" + FLAVOURS[flavour],
              "-DCMAKE_EXE_LINKER_FLAGS=" + LDFLAGS[flavour],
              "-DCMAKE_SHARED_LINKER_FLAGS=" + LDFLAGS[flavour]])
+        with open(stamp, "w") as f:
+            f.write(want)
     cmd = ["cmake", "--build", bdir, "-j", str(os.cpu_count() or 8)]
     if targets:
         cmd += ["--target"] + targets
